@@ -337,6 +337,9 @@ def check_c19(tier, seed, t0):
             legs.append(props.hx_leg("SG", profile=profile, features=feats, props=["C17", "C01"]))
         if "32_components" in feats:
             legs.append(props.hx_leg("SC32", profile=profile, features=feats, props=["C02", "C04", "C12", "C01"]))
+        if tier == "thorough" and profile == "rel" and feats == ("wrapping_version",):
+            # the real 2^32 wraparound, without hooks
+            legs.append(props.hx_leg("CYCLE", profile=profile, features=feats))
         sub = check_hx_props("C19", "quick", legs)
         for k in ("states", "transitions", "executions"):
             agg[k] += sub[k]
